@@ -72,7 +72,22 @@ def run(ctx):
         if m is not None and any(_cv(prog, x) is not None and _cv(prog, x) <= 20 for x in m.b):
             okc = True
     ctx.ob('SIZE-GATE', 'find-node-count-capped', okc, hr.where(), 'FindNode count is min(count, <=20) before the table lookup: %s' % okc)
-    ctx.floor('SIZE-GATE', 4)
+    # every other place where the count of a decoded FindNode reaches the routing-table lookup (closed world, shared with C02)
+    from props import c02 as C02
+    seen_sites = set()
+    for needle in ('find_nodes', 'find_closest_nodes'):
+        for b in prog.bodies.containing(needle):
+            for cs in b.calls(r'DhtCoreEngine::find_nodes$|KademliaRoutingTable::find_closest_nodes$'):
+                if (b.id, cs.bb) in seen_sites or len(cs.args) < 3:
+                    continue
+                seen_sites.add((b.id, cs.bb))
+                st, detail = C02._count_class(prog, b, b.expr(cs.args[2]), 2)
+                if st == 'local':
+                    continue
+                k = sum(1 for o in ctx.obls if o.key.startswith('peer-count@%s' % b.root))
+                ctx.ob('SIZE-GATE', 'peer-count@%s#%d' % (b.root, k), st == 'capped', cs.where(),
+                       'count of an inbound FindNode handed to the table lookup: %s' % detail, entry=b.root)
+    ctx.floor('SIZE-GATE', 8)
 
     # ---- 2. timestamp window
     pp = prog.body('network::parse_protocol_message')
@@ -152,6 +167,14 @@ def run(ctx):
         prog.body(r)
     if recv is not None:
         roots.append(recv.id)
+    # the other inbound decoders of DHT messages (stream handler of the shared transport, protocol handler of the
+    # network-integration layer): discovered as trait impls / methods that take bytes or a decoded DhtMessage from a peer
+    for extra in ('<transport::dht_handler::DhtStreamHandler as ant_quic::ProtocolHandler>::handle_stream',
+                  'dht::network_integration::DhtProtocolHandler::handle_message'):
+        if prog.has_body(extra):
+            roots.append(extra)
+        else:
+            ctx.note('inbound root %s not present in this tree' % extra)
     E = prog.reach(roots, depth=6)
     ctx.note('inbound-reachable set: %d bodies from %d roots' % (len(E), len(roots)))
     nsites = 0
@@ -168,8 +191,65 @@ def run(ctx):
             seen_keys[base] = seen_keys.get(base, 0) + 1
             ctx.ob('PANIC-SITES', '%s#%d' % (base, seen_keys[base]), ok, b.where(ln), '%s in %s: %s' % (text[:80], b.id[-70:], why), entry=b.root)
     ctx.stats['panic_sites'] = nsites
+    # ---- 5. allocations sized by a peer-supplied integer (closed world over the same reachable set): a capacity / length
+    # request whose size is a field of a decoded message — directly or through a parameter (followed two callers up) — must
+    # be bounded by min(.., constant) at the site; sizes that are constants or lengths of data already in memory are fine
+    from props import c07 as C07
+    nal = 0
+    for bid in sorted(E):
+        b = prog.bodies[bid]
+        if b.derived:
+            continue
+        for cs in b.calls(C07.ALLOC_SIZED):
+            idx = 0 if re.search(r'with_capacity(_and_hasher)?$', cs.callee) else 1
+            if idx >= len(cs.args):
+                continue
+            st, why = _size_class(prog, b, b.expr(cs.args[idx]), 2)
+            nal += 1
+            if st == 'mem':
+                continue
+            k = sum(1 for o in ctx.obls if o.key.startswith('alloc:%s' % b.root))
+            ctx.ob('ALLOC-PEER', 'alloc:%s#%d' % (b.root, k), st != 'peer', cs.where(),
+                   '%s(%s): %s' % (cs.short(), b.expr(cs.args[idx]).brief(60), why), entry=b.root)
+    ctx.ob('ALLOC-PEER', 'alloc:scanned', True, '-', '%d allocation-sizing calls in the %d inbound-reachable bodies were classified (expected count on the pinned tree: 0 — the handlers build their replies with collect / push)' % (nal, len(E)))
     ctx.ob('PANIC-SITES', 'reachable-set', len(E) >= 150, '-', '%d bodies reachable from the inbound entry points were scanned (%d potential panic sites)' % (len(E), nsites))
     ctx.floor('PANIC-SITES', 3)
+
+
+MSG_FIELD = re.compile(r'(WireMessage|Envelope|DhtNetworkMessage|DhtMessage|DhtRecord|DhtRequestWrapper|DhtResponse|DhtNetworkOperation|DhtNetworkResult)::')
+
+
+def _size_class(prog, b, e, depth):
+    """('mem' | 'capped' | 'peer' | 'local', why) for an allocation size expression"""
+    from props import c07 as C07
+    if C07._is_memsize(e):
+        return 'mem', 'constant / length of data already in memory'
+    top = e.strip()
+    while top.k == 'cast' and str(top.a).startswith('IntToInt'):
+        top = top.b.strip()
+    if top.k == 'call' and re.search(r'::min$|cmp::min$', top.a) and any(_cv(prog, a) is not None for a in top.b):
+        return 'capped', 'bounded by min(.., constant)'
+    for x in e.walk():
+        if x.k == 'downcast' and isinstance(x.b, str) and x.b in ('FindNode', 'FindValue', 'Store', 'Put', 'Get'):
+            return 'peer', 'sized by a field of a decoded inbound message (%s): a peer chooses how much memory is requested (capacity overflow panics)' % x.b
+        if x.k == 'field' and isinstance(x.b, str) and MSG_FIELD.search(x.b) and not re.search(r'::len\(', e.show()):
+            return 'peer', 'sized by message field %s: a peer chooses how much memory is requested' % x.b.rsplit('::', 1)[-1]
+    if top.k == 'param' and depth > 0:
+        root = b.root
+        rb = prog.bodies.get(root)
+        idx = rb.param_index(top.b) if rb is not None else None
+        worst = ('local', 'parameter fed by local callers only')
+        if idx is not None:
+            for cid in prog.callers_of(root):
+                cb = prog.bodies[cid]
+                for cs in cb.calls():
+                    if (cs.callee != root and cs.declared != root) or idx - 1 >= len(cs.args):
+                        continue
+                    st, why = _size_class(prog, cb, cb.expr(cs.args[idx - 1]), depth - 1)
+                    if st == 'peer':
+                        return st, why + ' (through %s)' % root.rsplit('::', 1)[-1]
+        return worst
+    return 'local', 'not derived from an inbound message'
 
 
 def _lin(prog, e):
